@@ -63,12 +63,14 @@ package response
 //@   modifies alloc()
 //@   ensures fresh(result) && result.Failed == nil && result.FailedWhenContains == failedWhenContains && result.Input == input && result.Result == ""
 
+// validFWC is an input-validity condition (failure strings are real, non-empty substrings): with "" in the
+// list the first-match helper returns "", which Record reads as "no match".
 //@ func (*Response).Record [C13]
-//@   requires validFWC(r.FailedWhenContains)
 //@   requires r.Failed == nil
 //@   modifies r.EndTime, r.ElapsedTime, r.RawResult, r.Result, r.Failed, alloc()
 //@   ensures #result r.Result == b && r.RawResult == b
-//@   ensures #failed-iff-contains (r.Failed != nil) <==> containsAnyS(b, r.FailedWhenContains)
+//@   ensures #failed-implies-contains r.Failed != nil ==> containsAnyS(b, r.FailedWhenContains)
+//@   ensures #contains-implies-failed validFWC(r.FailedWhenContains) && containsAnyS(b, r.FailedWhenContains) ==> r.Failed != nil
 //@   ensures #wf respWF(r)
 
 //@ func NewMultiResponse [C13]
@@ -83,3 +85,5 @@ package response
 //@   ensures #operations-failed r.Failed != nil ==> opsOf(mr) == old(opsOf(mr)) ++ refs(as(r.Failed, "*response.OperationError"))
 //@   ensures #operations-ok r.Failed == nil ==> mr.Failed == old(mr.Failed) && opsOf(mr) == old(opsOf(mr))
 //@   ensures #wf multiWF(mr)
+//@   ensures #failed-kept old(mr.Failed) != nil ==> mr.Failed == old(mr.Failed)
+//@   ensures #new-error-is-fresh old(mr.Failed) == nil && mr.Failed != nil ==> fresh(as(mr.Failed, "*response.MultiOperationError"))
